@@ -46,6 +46,7 @@ Step(e) ==
       [] e.op = "Validate" -> Check(e.n)
       [] e.op = "ValidateCollect" -> CheckCollect(e.n)
       [] e.op = "CopyTree" -> CopyTree(e.src, e.n)
+      [] e.op = "Query" -> Query(e.n)
 
 TraceNext ==
     /\ l <= Len(Traces[tid].events)
